@@ -7,6 +7,7 @@ import (
 	"os"
 	"os/exec"
 	"path/filepath"
+	"reflect"
 	"sort"
 	"strconv"
 	"strings"
@@ -438,6 +439,9 @@ func c06Exec(x *explore.Exec, sc c06Scenario) (bool, string, string, string) {
 	}
 	s.Run()
 	desc := sc.String()
+	if f := vsync.PoolFault(); f != "" {
+		return false, "C06/pool-discipline", fmt.Sprintf("scenario %s schedule %v: %s", desc, x.Choices, f), ""
+	}
 	// (1)
 	if s.Deadlock {
 		return false, "C06/deadlock", fmt.Sprintf("scenario %s deadlocks under schedule %v", desc, x.Choices), ""
@@ -622,6 +626,38 @@ func c06Exec(x *explore.Exec, sc c06Scenario) (bool, string, string, string) {
 	return true, "", "", strings.Join(obs, ";")
 }
 
+// c06PoolEval (part P): one input through Detect and DetectReader at three
+// limits on a single goroutine, under the pool-tracking shim. In: the input.
+func c06PoolEval(cs *core.Case) (bool, string, string) {
+	sched.Active = &seqHooks{}
+	defer func() { sched.Active = nil }()
+	vsync.ResetPools()
+	for _, l := range []uint32{0, 3072, uint32(len(cs.In) / 2)} {
+		for entry := 0; entry < 2; entry++ {
+			if entry == 0 {
+				detect(cs.In, l)
+			} else {
+				setLimit(l)
+				mimetype.DetectReader(bytes.NewReader(cs.In))
+			}
+			if f := vsync.PoolFault(); f != "" {
+				return false, "C06/pool-discipline", fmt.Sprintf("detecting %s (limit %d, entry %d): %s", quoteShort(cs.In), l, entry, f)
+			}
+			for _, p := range vsync.AllPools() {
+				idle := p.Idle()
+				for i := range idle {
+					for j := i + 1; j < len(idle); j++ {
+						if reflect.ValueOf(idle[i]).Kind() == reflect.Ptr && idle[i] == idle[j] {
+							return false, "C06/pool-discipline", fmt.Sprintf("after detecting %s (limit %d): the same object is idle twice in a pool", quoteShort(cs.In), l)
+						}
+					}
+				}
+			}
+		}
+	}
+	return true, "", ""
+}
+
 // c06Eval: Ints = scenario encoding, -1, choices
 func c06Eval(cs *core.Case) (ok bool, sig, msg string) {
 	sc, choices := c06Decode(cs.Ints)
@@ -714,6 +750,7 @@ func c06RaceChild(c *core.Ctx, args []string) int {
 func c06Setup(c *core.Ctx) {
 	c06ctx = c
 	c.Register("c06stress", c06StressEval)
+	c.Register("c06pool", c06PoolEval)
 	c.Register("c06", c06Eval)
 	c.Register("c06race", c06RaceEval)
 }
@@ -904,6 +941,34 @@ func c06Run(c *core.Ctx) {
 		rc.Ints = sc.encode()
 		c.R.Evals++
 		c.Check(rc)
+	}
+	// Part P: pool discipline over the whole corpus and the C04 operation menu
+	// (deterministic; the consequence of a fault is two goroutines sharing one
+	// scratch object, which part B can only sample)
+	{
+		pc := &core.Case{Kind: "c06pool"}
+		var n uint64
+		try := func(data []byte) {
+			if len(data) > 1<<16 || !c.Next() || c.Expired() {
+				return
+			}
+			pc.In = data
+			c.R.Evals++
+			c.R.States++
+			c.R.Transitions += 6
+			n++
+			c.Check(pc)
+		}
+		for _, w := range corpus(c) {
+			try(w.Data)
+		}
+		for _, o := range c04OpsGet() {
+			try(o.data)
+		}
+		for _, in := range c06Inputs {
+			try(in)
+		}
+		c.Note("P.inputs-under-pool-discipline", n)
 	}
 	// Part B, second half: every witness, every registered name, 8 goroutines
 	for v := 0; v < 2; v++ {
